@@ -58,6 +58,8 @@ def gen_policy(rng, o):
     if rng.random() < 0.5 or p["strat_default"] is None:
         for k in rng.sample(KLASSES, rng.randint(1, 4)):
             p["strat_tab"][k] = rng.random() < 0.35
+    if p["strat_default"] is None and rng.random() < 0.15:
+        p["strat_tab"] = {}          # strategies={} and no default: legal, and no class has a strategy
     p["has_rc"] = rng.random() < o.get("p_rc", 0.5)
     p["strat_shape"] = rng.randrange(12)      # which signature the scripted strategies are given (driver only)
     p["handler_p"] = rng.random() < o.get("p_handler", 0.25)
